@@ -235,7 +235,7 @@ impl Expr {
                     BinaryOperator::GreaterThan => Ok((left > right) as i64),
                     BinaryOperator::GreaterOrEqual => Ok((left >= right) as i64),
                     BinaryOperator::Equal => Ok((left == right) as i64),
-                    BinaryOperator::NotEqual => Ok((left < right) as i64),
+                    BinaryOperator::NotEqual => Ok((left != right) as i64),
                     BinaryOperator::LogicalAnd => Ok((left != 0 && right != 0) as i64),
                     BinaryOperator::LogicalOr => Ok((left != 0 || right != 0) as i64),
                 }
